@@ -403,9 +403,82 @@ def execute(trace):
     return run_ops(trace, True)[0]
 
 
+def _spaces(tier):
+    """Bounded exhaustive sub-spaces: (name, constructions, operations, depth).  Restricted and unrestricted
+    orbitals with 1..3 orbitals per spin, every occupation pattern of the alphabets (with/without occs_aminusb,
+    None), all sequences of occs/occsa/occsb/occs_aminusb assignments (incl. one wrong length each) up to depth."""
+    spaces = []
+    for kind in ("restricted", "unrestricted"):
+        for n in (1, 2, 3):
+            norb = n if kind == "restricted" else 2 * n
+            occ_vals = [None] + [list(v) for v in OCC_VALUES.get(norb, [])]
+            am_vals = [None] + ([list(v) for v in AMINUSB.get(n, [])] if kind == "restricted" else [])
+            cons = []
+            for o in occ_vals:
+                for a in am_vals:
+                    kw = {"kind": kind, "norba": n, "norbb": n}
+                    if o is not None:
+                        kw["occs"] = o
+                    if a is not None:
+                        kw["occs_aminusb"] = a
+                    cons.append(kw)
+            spin_vals = []
+            for v in OCC_VALUES.get(n, []):
+                w = [min(x, 1.0) for x in v]
+                if w not in spin_vals:
+                    spin_vals.append(w)
+            ops = []
+            for v in occ_vals[1:]:
+                ops.append({"who": "mut", "op": "set", "attr": "occs", "value": v})
+            for attr in ("occsa", "occsb"):
+                for v in spin_vals:
+                    ops.append({"who": "mut", "op": "set", "attr": attr, "value": v})
+                ops.append({"who": "mut", "op": "set", "attr": attr, "value": [0.5] * (n + 1)})  # wrong length
+            for v in (AMINUSB.get(n, []) if kind == "restricted" else AMINUSB.get(norb, [])[:2]):
+                ops.append({"who": "mut", "op": "set", "attr": "occs_aminusb", "value": list(v)})
+            ops.append({"who": "mut", "op": "set", "attr": "occs", "value": [1.0] * (norb + 1)})  # wrong length
+            ops.append({"who": "mut", "op": "set", "attr": "occs", "value": None})
+            ops.append({"who": "obs", "op": "read", "attr": "spinpol"})
+            if tier == "quick":
+                depth = 2 if n <= 2 else 1
+            else:
+                depth = 3 if n == 1 else 2
+            spaces.append((f"{kind} n={n} depth<={depth}", cons, ops, depth))
+    return spaces
+
+
+def _space_total(cons, ops, depth):
+    return len(cons) * sum(len(ops) ** d for d in range(depth + 1))
+
+
+def exhaustive_histories(tier, si, lo, hi):
+    import itertools
+
+    _name, cons, ops, depth = _spaces(tier)[si]
+    seqs = [()]
+    for d in range(1, depth + 1):
+        seqs += list(itertools.product(range(len(ops)), repeat=d))
+    total = len(cons) * len(seqs)
+    for idx in range(lo, min(hi, total)):
+        ci, qi = divmod(idx, len(seqs))
+        yield {"target": "mo", "ops": [{"who": "mut", "op": "construct", "kwargs": cons[ci]}] + [ops[j] for j in seqs[qi]]}
+
+
 def plan(tier, seed, args):
-    n = args.runs or (5000 if tier == "quick" else 60000)
-    return [{"run": i, "seed": seed, "tier": tier, "n": 40} for i in range(n)]
+    n = args.runs or (3000 if tier == "quick" else 40000)
+    tasks = []
+    run = 0
+    if args.only != "seeded":
+        for si, (_name, cons, ops, depth) in enumerate(_spaces(tier)):
+            total = _space_total(cons, ops, depth)
+            for lo in range(0, total, 4000):
+                tasks.append({"run": run, "seed": seed, "tier": tier, "exh": [si, lo, lo + 4000]})
+                run += 1
+    if args.only != "exhaustive":
+        for _ in range(n):
+            tasks.append({"run": run, "seed": seed, "tier": tier, "n": 40})
+            run += 1
+    return tasks
 
 
 def run_task(task):
@@ -414,8 +487,16 @@ def run_task(task):
     viols = []
     dig = []
     sample = None
-    for _ in range(task["n"]):
-        trace = gen_mo_trace(rng) if rng.random() < 0.7 else gen_shell_trace(rng)
+    if "exh" in task:
+        traces = exhaustive_histories(task["tier"], *task["exh"])
+        stats.add("exhaustive_spaces", _spaces(task["tier"])[task["exh"][0]][0])
+    else:
+        traces = ((gen_mo_trace(rng) if rng.random() < 0.7 else gen_shell_trace(rng)) for _ in range(task["n"]))
+    ntr = 0
+    for trace in traces:
+        ntr += 1
+        if "exh" in task:
+            stats.inc("probe.exhaustive_histories")
         vs, mut, info = run_ops(trace, True)
         viols.extend(vs)
         stats.inc(f"outcome.{trace['target']}_histories")
@@ -432,7 +513,7 @@ def run_task(task):
         dig.append((h, len(vs), tuple(mut)))
         if sample is None and task["run"] % 89 == 0 and info["reads"] and info["rejected"]:
             sample = {"target": trace["target"], "ops": trace["ops"], "mutator_outcomes": mut}
-    return {"n": task["n"], "digest": common.short(repr(dig)), "violations": viols, "stats": stats.export(), "sample": sample}
+    return {"n": ntr, "digest": common.short(repr(dig)), "violations": viols, "stats": stats.export(), "sample": sample}
 
 
 def shrink(trace, still_fails):
@@ -456,6 +537,10 @@ def shrink(trace, still_fails):
 def coverage_extra(stats, tier):
     return {
         "distinct_states": stats.distinct("histories"),
+        "exhaustive_subspaces": sorted(stats.s.get("exhaustive_spaces", [])),
+        "exhaustive_histories": stats.c.get("probe.exhaustive_histories", 0),
+        "exhaustive_note": "the listed sub-spaces (kind x orbitals per spin x every occupation pattern of the alphabets x all assignment "
+                           "sequences up to that depth) are enumerated completely; larger orbital counts, shells and deeper histories are seeded sampling",
         "fault_kinds_configured": ["rejected construction/assignment (validators)", "observer read interleaved between mutator steps"],
         "simulated_time": "operations (one step = one construct/assign/read)",
     }
